@@ -7,7 +7,7 @@ import itertools
 import lib
 
 KINDS = [(e, o) for e in ('permit', 'forbid') for o in ('t', 'f', 'e')]
-NVAR = {'t': 5, 'f': 6, 'e': 8}
+NVAR = {'t': 5, 'f': 6, 'e': 12}
 
 
 def gen_cases(ctx):
@@ -43,8 +43,8 @@ def run(ctx):
     b = lib.standard_build(ctx)
     cases, maxlen = gen_cases(ctx)
     ctx.rule = ('every sequence of <=%d policies over {permit,forbid}x{satisfied,unsatisfied,erroring} (each outcome concretised by '
-                'one of 5-8 real Cedar policies: scope match/mismatch, when/unless, type/overflow/attr/tag/entity/extension errors, '
-                'non-boolean conditions) x {PolicySet, slice iterator, duplicate-id iterator}, plus random sequences of 5-40 policies; '
+                'one of 5-12 real Cedar policies: scope match/mismatch, when/unless, type/overflow/attr/tag/entity/extension errors, '
+                'non-boolean conditions, non-boolean operands of && / || behind a deciding literal) x {PolicySet, slice iterator, duplicate-id iterator}, plus random sequences of 5-40 policies; '
                 'non-trivial = at least one reason or error reported; ids, positions (file, offset, line, column) of every reason/error '
                 'checked against the policy they must name; plus every sequence of up to 3 (thorough: 4) when / unless clauses with true / false / erroring bodies' % maxlen)
     ctx.exhaustive = True
